@@ -35,7 +35,22 @@ func Setup() error {
 // simpleHarness builds harness package pkg (plus the shared vrep package) and
 // runs it in `shards` processes.
 func simpleHarness(c *Ctx, tag, pkg string, extraPkgs []string, env map[string]string, shards int) {
-	ov := vc.NewOverlay()
+	simpleHarnessOv(c, vc.NewOverlay(), tag, pkg, extraPkgs, env, shards)
+}
+
+// exportOutputHash adds a file to package grog/internal/output (through the
+// overlay only) that exposes the unexported getOutputHash to harnesses.
+func exportOutputHash(ov *vc.Overlay) error {
+	return ov.AddContent("exports", "internal/output/zverif_export.go", []byte(`package output
+
+import "grog/internal/proto/gen"
+
+// VerifGetOutputHash exposes getOutputHash to the verification harness (overlay only).
+func VerifGetOutputHash(outputs []*gen.Output) (string, error) { return getOutputHash(outputs) }
+`))
+}
+
+func simpleHarnessOv(c *Ctx, ov *vc.Overlay, tag, pkg string, extraPkgs []string, env map[string]string, shards int) {
 	for _, p := range append([]string{"vrep", pkg}, extraPkgs...) {
 		if err := ov.AddHarness(p); err != nil {
 			c.R.BrokenCheck("overlay: %v", err)
